@@ -167,7 +167,7 @@ RECURSIVE Consume(_, _, _, _)
 \* mm: monitor state, v: violations, at: trace position, strict: every answered command must be complete
 \* (strict at read/end synchronisation points)
 Consume(mm, v, at, strict) ==
-  IF mm.lost THEN [m |-> mm, v |-> v]
+  IF mm.lost \/ mm.fault THEN [m |-> mm, v |-> v]   \* after a transport fault the stream is legitimately broken
   ELSE IF mm.phase = "greet" THEN
     LET r == Messages(mm.ob) IN
     IF Len(r.msgs) = 0 THEN [m |-> mm, v |-> v \cup (IF strict THEN {V("C11", at, "no greeting before the server waits for input")} ELSE {})]
@@ -202,7 +202,7 @@ Consume(mm, v, at, strict) ==
 
 \* at a synchronisation point nothing may be left unanswered
 SyncViol(mm, at) ==
-  IF mm.lost \/ mm.free THEN {}
+  IF mm.lost \/ mm.free \/ mm.fault THEN {}
   ELSE (IF \E i \in 1..Len(mm.q) : mm.q[i].st \in {"auto", "ret"} /\ mm.q[i].cls.reply /\ (mm.q[i].st = "auto" \/ mm.q[i].ret = "ok")
         THEN {V("C03", at, "a command that expects a reply has none when the server waits for input"),
               V("C12", at, "server waits for input while it owes a reply")} ELSE {})
@@ -409,6 +409,7 @@ Step ==
                 vres ==
                   IF res = "panic" THEN
                      (IF mm.fault THEN {V("C19", l, "transport fault turned into a panic at " \o e.site)}
+                      ELSE IF mm.panics # << >> THEN {V("C20", l, "decoding the parameters of a client's EXECUTE panicked at " \o mm.panics[1])}
                       ELSE IF mm.dead = "shim callback failed" \/ mm.wpanic THEN {V("C19", l, "a failing shim callback ended in a panic instead of an error return at " \o e.site)}
                       ELSE {V("C20", l, "run_on panicked at " \o e.site)})
                   ELSE IF res \in {"livelock", "timeout"} THEN {V("C20", l, "run_on did not terminate")}
